@@ -517,7 +517,7 @@ func runResp(c *corr.Ctx) error {
 		}
 	}
 	// many elements: beyond the preallocated capacity, append growth
-	for _, n := range []int{1023, 1024, 1025, 1500, c.Scale(3000, 100000)} {
+	for _, n := range []int{1023, 1024, 1025, 1500, c.Scale(3000, 20000)} {
 		args := make([][]byte, n)
 		for j := range args {
 			switch j % 3 {
@@ -576,7 +576,7 @@ func runResp(c *corr.Ctx) error {
 		term := []string{"\r\n", "\r\n", "\r\n", "\n", "", "\r"}[r.Intn(6)]
 		rr.run("inline_separators", append(append(line, term...), rest...), respFrame{})
 	}
-	for _, n := range []int{100, 4095, 4096, 4097, 70000, c.Scale(100000, 1000000)} {
+	for _, n := range []int{100, 4095, 4096, 4097, 70000, c.Scale(100000, 300000)} {
 		long := bytes.Repeat([]byte("a"), n)
 		rr.run("inline_long", append(append([]byte(nil), long...), '\r', '\n'), respFrame{Kind: "inline", Args: hexArgs([][]byte{long})})
 		rr.run("inline_long_noterm", long, respFrame{})
